@@ -292,3 +292,149 @@ func TestC18NFS40RegressRefusedReleaseLockownerKeepsEverything(t *testing.T) {
 		w.do(c, &opSpec{Kind: kLockt, FH: a.fh, LockCID: c.confirmed, LockOwner: c.lockOwner[1].key, LockType: 2, Offset: 0, Length: 10})
 	})
 }
+
+// expectEvents makes a scripted case say what it is meant to exercise.
+func (w *world) expectEvents(want map[string]int) {
+	for k, n := range want {
+		if got := w.m.ev[k] + w.labels[k]; got != n {
+			panic(fmt.Sprintf("harness: scripted case counted %d x %q, expected %d (the script no longer exercises what it was written for)", got, k, n))
+		}
+	}
+}
+
+// Seeded change C19-6A (isNextStateID computes the successor as
+// seqid+1): OPEN, OPEN_CONFIRM, the open state ID's seqid is placed at
+// 2^32-1 (stands for a long-lived open), CLOSE - which takes the state ID
+// to seqid 1, not 0 - and the identical CLOSE again: the retransmission
+// must get the first reply (the state ID in the cached reply, seqid 1, is
+// the successor of the one in the request, 2^32-1) and the file must not
+// be closed a second time.
+func TestC19NFS40RegressStateIDSeqidWrapClose(t *testing.T) {
+	runScripted(t, profC19, 1, func(w *world) {
+		c := w.clients[0]
+		w.register(c)
+		a := w.openConfirmed(c, 0, "a", 3)
+		w.presetStateID(presetTarget{c: c, co: a}, 0xffffffff)
+		o := c.owners[0]
+		cl := &opSpec{Kind: kClose, FH: a.fh, Owner: o.key, Seq: nextSeq(o.seq), Stateid: a.sid}
+		if cl.Stateid.Seq != 0xffffffff {
+			panic("harness: the client simulator was not told about the preset")
+		}
+		w.do(c, cl)
+		w.issue(c, retxOf(cl))
+		w.expectEvents(map[string]int{"stateid_seqid_preset": 1, "stateid_seqid_wrapped:close": 1, "replay_of_wrapping_operation:close": 1, "replay_byte_equal": 1})
+	})
+}
+
+// The same for the operations of a lock-owner: LOCKU takes the lock
+// state ID from 2^32-1 to 1 and is retransmitted; then (second lock
+// state, on another file) LOCK with the existing lock-owner does. Before
+// and after the wrap-around a request with an older seqid gets
+// NFS4ERR_OLD_STATEID and one with a newer seqid NFS4ERR_BAD_STATEID,
+// where older/newer are taken modulo 2^32 as nfs40CompareStateSeqID
+// documents.
+func TestC19NFS40RegressStateIDSeqidWrapLockuLock(t *testing.T) {
+	runScripted(t, profC19, 1, func(w *world) {
+		c := w.clients[0]
+		w.register(c)
+		a := w.openConfirmed(c, 0, "a", 3)
+		b := w.openConfirmed(c, 0, "b", 3)
+		w.lockNew(c, 0, a, 0, 2, 0, 4)
+		w.lockNew(c, 0, b, 1, 2, 0, 4)
+		lo0, lo1 := c.lockOwner[0], c.lockOwner[1]
+		locku := func(co *cOpen, lo *cLockOwner, s sid, note string) *opSpec {
+			return &opSpec{Kind: kLocku, FH: co.fh, LockOwner: lo.key, LockSeq: nextSeq(lo.seq), Stateid: s, LockType: 2, Offset: 0, Length: 1, Note: note}
+		}
+
+		// File a, lock-owner 0: LOCKU wraps.
+		w.presetStateID(presetTarget{c: c, co: a, lok: lo0.key}, 0xffffffff)
+		at := a.locks[lo0.key]
+		// Server at 2^32-1. Seqid 1 (what comes next) and 0 are from the future.
+		w.do(c, locku(a, lo0, sid{Seq: 1, Other: at.Other}, "sid_future"))
+		w.do(c, locku(a, lo0, sid{Seq: 0, Other: at.Other}, "sid_future"))
+		// 2^32-2 is old. The lock-owner's seqid advances on that error.
+		old := locku(a, lo0, sid{Seq: 0xfffffffe, Other: at.Other}, "sid_old")
+		w.do(c, old)
+		lo0.seq = old.LockSeq
+		un := locku(a, lo0, at, "")
+		w.do(c, un)
+		w.issue(c, retxOf(un))
+		if got := a.locks[lo0.key]; got.Seq != 1 {
+			panic(fmt.Sprintf("harness: the client simulator holds lock state ID %s after the wrap-around", got))
+		}
+		// Server at 1. 2^32-1 and 0 are old now, 2 is from the future.
+		old = locku(a, lo0, at, "sid_old")
+		w.do(c, old)
+		lo0.seq = old.LockSeq
+		old = locku(a, lo0, sid{Seq: 0, Other: at.Other}, "sid_old")
+		w.do(c, old)
+		lo0.seq = old.LockSeq
+		w.do(c, locku(a, lo0, sid{Seq: 2, Other: at.Other}, "sid_future"))
+		w.do(c, locku(a, lo0, a.locks[lo0.key], ""))
+
+		// File b, lock-owner 1: LOCK with the existing lock-owner wraps.
+		w.presetStateID(presetTarget{c: c, co: b, lok: lo1.key}, 0xfffffffe)
+		w.do(c, locku(b, lo1, b.locks[lo1.key], "")) // 2^32-2 -> 2^32-1
+		lk := &opSpec{Kind: kLock, FH: b.fh, LockOwner: lo1.key, LockSeq: nextSeq(lo1.seq), Stateid: b.locks[lo1.key], LockType: 2, Offset: 8, Length: 2}
+		w.do(c, lk)
+		w.issue(c, retxOf(lk))
+		w.do(c, &opSpec{Kind: kWrite, FH: b.fh, Stateid: b.locks[lo1.key], Data: "x"})
+		w.expectEvents(map[string]int{
+			"stateid_seqid_preset": 2, "stateid_seqid_wrapped:locku": 1, "stateid_seqid_wrapped:lock": 1,
+			"replay_of_wrapping_operation:locku": 1, "replay_of_wrapping_operation:lock": 1,
+			"old_stateid_from_before_the_wrap": 1, "future_stateid_from_beyond_the_wrap": 2,
+		})
+	})
+}
+
+// The same for OPEN_DOWNGRADE and for an OPEN of a file the open-owner
+// already has open (upgrade), with old and future seqids on both sides
+// of the wrap-around.
+func TestC19NFS40RegressStateIDSeqidWrapOpenDowngradeOpen(t *testing.T) {
+	runScripted(t, profC19, 1, func(w *world) {
+		c := w.clients[0]
+		w.register(c)
+		o := c.owners[0]
+		a := w.openConfirmed(c, 0, "a", 3)
+		w.presetStateID(presetTarget{c: c, co: a}, 0xfffffffe)
+		down := func(s sid, acc uint32, note string) *opSpec {
+			return &opSpec{Kind: kOpenDowngrade, FH: a.fh, Owner: o.key, Seq: nextSeq(o.seq), Stateid: s, Access: acc, Note: note}
+		}
+		w.do(c, down(a.sid, 3, "")) // 2^32-2 -> 2^32-1
+		at := a.sid
+		if at.Seq != 0xffffffff {
+			panic("harness: scripted state ID seqids are off")
+		}
+		w.do(c, down(sid{Seq: 1, Other: at.Other}, 3, "sid_future"))
+		w.do(c, down(sid{Seq: 0xfffffffe, Other: at.Other}, 3, "sid_old"))
+		d := down(at, 1, "")
+		w.do(c, d) // 2^32-1 -> 1
+		w.issue(c, retxOf(d))
+		if a.sid.Seq != 1 {
+			panic(fmt.Sprintf("harness: the client simulator holds open state ID %s after the wrap-around", a.sid))
+		}
+		w.do(c, down(at, 1, "sid_old"))
+		w.do(c, down(sid{Seq: 0, Other: at.Other}, 1, "sid_old"))
+		w.do(c, down(sid{Seq: 2, Other: at.Other}, 1, "sid_future"))
+		w.do(c, &opSpec{Kind: kRead, FH: a.fh, Stateid: a.sid, Count: 1})
+
+		// OPEN of the same file for writing by the same open-owner: the
+		// upgrade advances the state ID as well.
+		w.presetStateID(presetTarget{c: c, co: a}, 0xffffffff)
+		up := &opSpec{Kind: kOpen, ClientID: c.confirmed, FH: "root", Owner: o.key, Seq: nextSeq(o.seq), Name: "a", Access: 2, How: "nocreate"}
+		w.do(c, up)
+		w.issue(c, retxOf(up))
+		if a.sid.Seq != 1 || a.access != 3 {
+			panic(fmt.Sprintf("harness: the client simulator holds open state ID %s access %d after the upgrade", a.sid, a.access))
+		}
+		cl := &opSpec{Kind: kClose, FH: a.fh, Owner: o.key, Seq: nextSeq(o.seq), Stateid: a.sid}
+		w.do(c, cl)
+		w.issue(c, retxOf(cl))
+		w.expectEvents(map[string]int{
+			"stateid_seqid_preset": 2, "stateid_seqid_wrapped:open_downgrade": 1, "stateid_seqid_wrapped:open": 1,
+			"replay_of_wrapping_operation:open_downgrade": 1, "replay_of_wrapping_operation:open": 1,
+			"old_stateid_from_before_the_wrap": 1, "future_stateid_from_beyond_the_wrap": 1,
+			"replayed_open_getfh_equal": 1,
+		})
+	})
+}
